@@ -38,6 +38,7 @@ def build_cluster(clock, net, spec):
         cl.default_coordinator = int(spec["coordinator"])
     for m in spec.get("modes", []):
         cl.modes.append(dict(m))
+    cl.meta_order = spec.get("meta_order", "asc")
     return cl
 
 
@@ -78,6 +79,7 @@ class ClientWorld(object):
         self.trace = []
         self.faults_taken = 0
         self.sched_taken = 0
+        self.deviations_taken = 0
         self.reacted = False
         self.horizon_s = cfg.get("horizon_s", 600.0)
         self.stopped = False
@@ -156,6 +158,8 @@ class ClientWorld(object):
             from ref import simgroup
             {"phantom_joins": simgroup.phantom_joins, "phantom_leaves": simgroup.phantom_leaves,
              "evict": simgroup.evict_real}[kind](cl, ev[1])
+        elif kind == "add_partition":
+            cl.add_partition(ev[1], ev[2], ev[3])
         elif kind == "append":
             log = cl.logs[(ev[1], ev[2])]
             log.append_plain(None, ev[3].encode("latin-1"), magic=log.magic, timestamp=7)
@@ -240,6 +244,11 @@ class ClientWorld(object):
         return ev
 
     def enabled(self):
+        out = self._enabled()
+        self.enabled_cached = out
+        return out
+
+    def _enabled(self):
         if self.stopped or self.clock.seconds() > self.horizon_s:
             return []
         io = self.io_events()
@@ -301,7 +310,7 @@ class ClientWorld(object):
         """Largest number of connection attempts made to one address at the current virtual instant."""
         now = self.clock.seconds()
         per = {}
-        for j in reversed(self.net.journal):
+        for j in reversed(self.net.journal[getattr(self, "_spin_mark", 0):]):
             if j[0] == "attempt":
                 if j[4] == now:
                     per[(j[2], j[3])] = per.get((j[2], j[3]), 0) + 1
@@ -315,6 +324,14 @@ class ClientWorld(object):
     # ------------------------------------------------------------------ apply
     def apply(self, label):
         self.trace.append(label)
+        try:
+            en = self.enabled_cached
+        except AttributeError:
+            en = None
+        if en and en[0][0] != label:
+            self.deviations_taken += 1
+        if label.startswith("app") or label == "timer":
+            self._spin_mark = len(self.net.journal)  # only an uninterrupted burst of reconnects counts as spinning
         parts = label.split(":")
         kind = parts[0]
         try:
@@ -408,6 +425,13 @@ class ClientWorld(object):
             self.viol("wire-grammar", "neg:request-does-not-parse", "unparseable request: %s" % req.grammar_error)
             return
         name = rk.API_NAMES.get(p["api_key"], str(p["api_key"]))
+        if "client_id" in self.cfg:
+            want = self.cfg["client_id"]
+            want = b"afkak-client" if want is None else want.encode("utf-8")
+            if p["client_id"] != want:
+                self.viol("wire-grammar", "neg:client-id-on-the-wire-differs",
+                          "%s request carries client id %r, the application supplied %r" % (
+                              name, p["client_id"], want))
         if req.grammar_error:
             self.viol("wire-grammar", "neg:request-does-not-parse:%s-v%d" % (name, p["api_version"]),
                       "%s v%d request rejected by the reference parser: %s" % (name, p["api_version"],
